@@ -907,10 +907,78 @@ def grid_probes(rng, tier, out):
                'halfcomplex=%s' % (shape, axes, shifts, hc), snippet)
 
 
+_ADJ = ("def adj_defect(op, a, b):\n"
+        "    # |<op a, b>_ran - <a, op^* b>_dom| relative, plus the same for op^* and (op^*)^* == op\n"
+        "    A = op.adjoint\n"
+        "    l1 = op(a).inner(b); r1 = a.inner(A(b))\n"
+        "    l2 = A(b).inner(a); r2 = b.inner(A.adjoint(a))\n"
+        "    sc = 1 + abs(l1)\n"
+        "    return max(abs(l1 - r1), abs(l2 - r2)) / sc\n")
+
+
+def wavelet_axes_adjoint_probes(rng, tier, out):
+    """Adjoint identity in the WEIGHTED inner products for transforms over a subset of the axes of
+    spaces with different, non-unit cell sides per axis; both operator classes, their adjoints'
+    adjoints; every orthogonal wavelet of the sweep."""
+    import pywt
+    names = pywt.wavelist(kind='discrete')
+    orth = [n for n in names if pywt.Wavelet(n).orthogonal and n != 'dmey']
+    sel = orth if tier != 'quick' else (['haar', 'db2', 'db3', 'sym4', 'coif1'] + rng.sample(orth, 8))
+    for name in sel:
+        for nd in (2, 3):
+            for _ in range(1 if tier == 'quick' else 2):
+                L = rng.randint(1, 2)
+                k = rng.randint(1, nd - 1)                       # proper subset
+                axes = rng.sample(range(nd), k)
+                if rng.random() < 0.5:
+                    axes.sort()
+                ax_arg = axes
+                if k == 1 and rng.random() < 0.5:
+                    ax_arg = axes[0] - nd if rng.random() < 0.5 else axes[0]      # scalar / negative axis
+                shape = [2 ** L * rng.randint(1, 3) if i in axes else rng.randint(2, 5) for i in range(nd)]
+                sides = [rng.choice([0.5, 2.0, 0.25, 3.0, 1.5]) for _ in shape]
+                for cls in ('W', 'W.inverse', 'W.adjoint', 'W.inverse.adjoint'):
+                    snippet = (_PRE + _ADJ + "sp = odl.uniform_discr(%r, %r, %r)\n"
+                               "W = odl.trafos.WaveletTransform(sp, %r, nlevels=%d, pad_mode='pywt_periodic', axes=%r)\n"
+                               "op = %s\nrs = np.random.RandomState(%d)\n"
+                               "a = op.domain.element(rs.randint(-4, 5, op.domain.shape).astype(float))\n"
+                               "b = op.range.element(rs.randint(-4, 5, op.range.shape).astype(float))\n"
+                               "observed = float(adj_defect(op, a, b)); expected = 0.0\nok = observed <= 1e-10\n"
+                               % ([0.0] * nd, [n * s for n, s in zip(shape, sides)], shape, name, L, ax_arg, cls,
+                                  rng.randint(0, 10 ** 6)))
+                    _probe(out, 'wavelet-adjoint-axes-subset-%s' % cls,
+                           '<op a,b> == <a,op.adjoint b> (weighted), op = %s of WaveletTransform(%s, nlevels=%d, '
+                           'pywt_periodic, axes=%r) on shape %s with cell sides %s' % (cls, name, L, ax_arg, shape, sides),
+                           snippet)
+
+
+def fourier_adjoint_probes(rng, tier, out):
+    """`adjoint` of the Fourier operators against the inner products of their spaces (not claimed by
+    the property text; reported as findings)."""
+    for cls in ('FourierTransform', 'DiscreteFourierTransform'):
+        for shape, axes in [([4], [0]), ([4, 5], [0, 1]), ([4, 5], [1]), ([3, 4, 5], [0, 2]), ([3, 4, 5], [1])]:
+            nd = len(shape)
+            sides = [rng.choice([0.5, 2.0, 0.25, 1.0]) for _ in shape]
+            for impl in ('numpy', 'pyfftw'):
+                snippet = (_PRE + _ADJ + "sp = odl.uniform_discr(%r, %r, %r, dtype=complex)\n"
+                           "op = odl.trafos.%s(sp, axes=%r, impl=%r)\nrs = np.random.RandomState(%d)\n"
+                           "a = op.domain.element(rs.randint(-4, 5, op.domain.shape) + 1j * rs.randint(-4, 5, op.domain.shape))\n"
+                           "b = op.range.element(rs.randint(-4, 5, op.range.shape) + 1j * rs.randint(-4, 5, op.range.shape))\n"
+                           "observed = float(adj_defect(op, a, b)); expected = 0.0\nok = observed <= 1e-9\n"
+                           % ([0.0] * nd, [n * s for n, s in zip(shape, sides)], shape, cls, axes, impl,
+                              rng.randint(0, 10 ** 6)))
+                _probe(out, 'dft-adjoint-is-unscaled-inverse' if cls.startswith('Discrete')
+                       else 'ft-adjoint-is-inverse-not-adjoint',
+                       '%s(axes=%r, impl=%s).adjoint is the adjoint for the spaces\' inner products, shape %s sides %s'
+                       % (cls, axes, impl, shape, sides), snippet)
+
+
 def probes(rng, tier):
     C.setup_impl_path()
     out = []
     grid_probes(rng, tier, out)
+    wavelet_axes_adjoint_probes(rng, tier, out)
+    fourier_adjoint_probes(rng, tier, out)
     dft_probes(rng, tier, out)
     backend_probes(rng, tier, out)
     ft_probes(rng, tier, out)
